@@ -471,6 +471,7 @@ RULES = [
 def rule_inventory(ctx):
     from . import inventory
     inventory.check(ctx, ['sched-queue-pull', 'sched-queue-insert'])
+    inventory.check_narrowing(ctx)
 
 
 RULES.append(("C01.m", "state-mutation inventory: no new site that changes the content of the state this property rests on", rule_inventory))
